@@ -24,6 +24,26 @@ PROPS = {
     },
 }
 
+SEQ = {
+    "real": ["p/p2pke Session (and everything it calls: flynn/noise, x509, protobuf, replay filter)"],
+    "stub": ["transport, clock (the `now` argument) and adversary are the harness", "crypto/rand (seeded ChaCha8 via testing/cryptotest)"],
+    "tier": "A (trace-deterministic, single-threaded: sessions have no goroutines)",
+}
+
+PROPS["C06"] = {
+    "pkg": "sess", "engine": "seqsim", "env": {"SIM_PROP": "C06"},
+    "legs": ["random", "random", "random", "sweep"],
+    "runs": {"quick": 40000, "thorough": 2400000},
+    "budget": {"quick": 150, "thorough": 1800},
+    "rule": "one run = one schedule of deliver/drop/duplicate/reorder/reflect/retransmit/send actions over the genuine messages of one honest real Session pair, followed by the fair suffix; "
+            "leg random draws up to 40 actions from the seed, leg sweep enumerates every action sequence over a 9-letter alphabet by length (run index = sequence number; depth 4 complete in quick, depth 6 in thorough); "
+            "non-trivial = at least two actions before the suffix; distinct = distinct event traces (hash of the per-action log)",
+    "components": SEQ,
+    "level_text": "seeded and depth-bounded-enumerated exploration of message schedules over the real Session state machine with per-action invariants (no panic, no regression, idempotent Handshake, errors change nothing) and a bounded-liveness check after a fair suffix (both ready within 2 rounds, data flows both ways). Sampling beyond the enumerated depth.",
+    "level_note": "trusted: the harness transport and oracle (sim/sess), seeded crypto/rand; cryptographic primitives are assumed sound",
+    "assumptions": ["only genuine messages of the pair are delivered (adversarial bytes belong to C02/C03/C08)", "the clock stands still within one run (expiry is exercised in C02/C07)"],
+}
+
 NOT_APPLICABLE = {
     "C17": "pure functions of their input (key/peer-id marshal, parse, equality, fingerprint): no schedule, clock, fault or second party for a simulator to vary; see DESIGN.md §7",
 }
